@@ -240,6 +240,15 @@ def gen_policy(seed, year, kind=None):
                       'archer_msa': '0', 'educator_expenses': '0'})
     elif kind == 'deps':
         fixed['1040.number_dependents'] = str(rng.choice([1, 2, 3, 4]))
+    elif kind == 'invest':
+        # little or no earned income, mostly qualified dividends / capital-gain distributions, section 199A dividends:
+        # the corner where "income minus net capital gain" style subtractions reach zero or would go below it
+        a = rng.choice([8000, 20000, 45000, 90000]) + rng.choice([0, 0.5, 123.45])
+        fixed.update({'1040.number_w-2': rng.choice(['0', '0', '1']), '1040.number_1099-div': rng.choice(['1', '1', '2']),
+                      '1040.number_1099-int': '0', '1040.number_1099-r': '0', '1040.number_1099-g': '0',
+                      'box_1a': f'{a:.2f}', 'box_1b': f'{a * rng.choice([0.8, 0.95, 1.0]):.2f}',
+                      'box_2a': rng.choice(['0', '0', f'{a / 4:.2f}']), 'box_5': str(rng.choice([200, 1000, 2500.75])),
+                      'box_1': str(rng.choice([0, 3000, 9000]))})
     return Policy(seed, year, fixed=fixed, p_yes=p_yes, scale=scale), kind
 
 
